@@ -27,7 +27,12 @@ SHRINK_BUDGET = 400
 CaseTimeout = C.CaseTimeout
 
 
+_ALARMS = [0]
+
+
 def _case_alarm(signum, frame):
+    _ALARMS[0] += 1
+    C.TIMED_OUT[0] = True
     raise CaseTimeout()
 
 
@@ -38,9 +43,16 @@ def safe(f, case):
     import signal
 
     signal.signal(signal.SIGALRM, _case_alarm)
-    signal.setitimer(signal.ITIMER_REAL, CASE_TIMEOUT)
+    _ALARMS[0] = 0
+    C.TIMED_OUT[0] = False
+    # the alarm repeats: code under test that swallows the exception (a bare except, `continue` in a `finally`)
+    # is interrupted again until the timeout gets through
+    signal.setitimer(signal.ITIMER_REAL, CASE_TIMEOUT, 0.2)
     try:
-        return f(case)
+        res = f(case)
+        if _ALARMS[0]:
+            return "exc Timeout(>%gs)" % CASE_TIMEOUT  # it fired and was swallowed: the answer is not to be trusted
+        return res
     except C.DriverUnavailable:
         raise
     except CaseTimeout:
@@ -51,6 +63,7 @@ def safe(f, case):
         return "exc " + C.exc_name(e)
     finally:
         signal.setitimer(signal.ITIMER_REAL, 0)
+        C.TIMED_OUT[0] = False
 
 
 class Runner:
